@@ -953,3 +953,54 @@ impl RuntimeStackTrait<Val> for RuntimeStack {
         }
     }
 }
+
+/// Verification hook: a copy of every private field of `Runtime`.
+#[cfg(ae9rb_basic_lang_verif)]
+pub struct VerifState<'a> {
+    pub dirty: bool,
+    pub pc: Address,
+    pub tr: LineNumber,
+    pub tron: bool,
+    pub entry_address: Address,
+    pub stack: Vec<Val>,
+    pub vars: &'a Var,
+    pub state: String,
+    pub cont: String,
+    pub cont_pc: Address,
+    pub print_col: usize,
+    pub rand: (u32, u32, u32),
+    pub functions: Vec<(Rc<str>, usize, Address)>,
+    pub program: &'a Program,
+    pub listing: &'a Listing,
+}
+
+#[cfg(ae9rb_basic_lang_verif)]
+impl Runtime {
+    pub fn verif_state(&self) -> VerifState<'_> {
+        let mut functions: Vec<(Rc<str>, usize, Address)> = self
+            .functions
+            .iter()
+            .map(|(k, (n, a))| (k.clone(), *n, *a))
+            .collect();
+        functions.sort_by(|a, b| a.0.cmp(&b.0));
+        VerifState {
+            dirty: self.dirty,
+            pc: self.pc,
+            tr: self.tr,
+            tron: self.tron,
+            entry_address: self.entry_address,
+            stack: (0..self.stack.len())
+                .filter_map(|i| self.stack.get(i).cloned())
+                .collect(),
+            vars: &self.vars,
+            state: format!("{:?}", self.state),
+            cont: format!("{:?}", self.cont),
+            cont_pc: self.cont_pc,
+            print_col: self.print_col,
+            rand: self.rand,
+            functions,
+            program: &self.program,
+            listing: &self.listing,
+        }
+    }
+}
